@@ -712,19 +712,19 @@ func parseShortTermRPS(r *bits.EBSPReader, idx, numSTRefPicSets byte, sps *SPS) 
 		interRPSPredFlag = r.ReadFlag()
 	}
 	if interRPSPredFlag {
-		deltaIdx := byte(1)
+		deltaIdx := uint(1)
 		if idx == numSTRefPicSets { // Slice header
-			deltaIdx = byte(r.ReadExpGolomb() + 1)
+			deltaIdx = r.ReadExpGolomb() + 1
 			// parse delta_idx_minus1
 		}
-		if deltaIdx > idx {
+		if deltaIdx == 0 || deltaIdx > uint(idx) {
 			r.SetError(fmt.Errorf("deltaIdx > idx in parseShortTermRPS"))
 			return stps
 		}
 		deltaRpsSign := int(r.Read(1))
 		absDeltaRpsMinus1 := int(r.ReadExpGolomb())
 		deltaRps := (1 - (deltaRpsSign << 1)) * (absDeltaRpsMinus1 + 1)
-		ref := sps.ShortTermRefPicSets[idx-deltaIdx]
+		ref := sps.ShortTermRefPicSets[idx-byte(deltaIdx)]
 		numDeltaPocs := int(ref.NumDeltaPocs)
 		usedByCurrPicFlag := make([]bool, numDeltaPocs+1)
 		useDeltaFlag := make([]bool, numDeltaPocs+1)
